@@ -38,6 +38,8 @@ func initEnv(c *core.Ctx) {
 		panic(err)
 	}
 	H = h
+	// the first step of every result set is a fault point too (where SQLite reports what an INSERT ... RETURNING violates)
+	H.Rec.NextFaults = true
 	restore()
 	pre = vdb.Dump(H.SQL, txm.AllTables...)
 	rows, err := h.SQL.Query("SELECT sql FROM sqlite_master WHERE sql IS NOT NULL AND name NOT LIKE 'sqlite_%'")
@@ -147,6 +149,7 @@ func executeCrash(c *core.Ctx, op txm.Op, k int) (after string, opErr error) {
 	}
 	txm.ResetHooks()
 	var count int64
+	h.Rec.NextFaults = true
 	h.Rec.SetHook(recdrv.FailNth(k, recdrv.ErrCrash, &count))
 	res := op.Run(h.DB.Session(&gorm.Session{}))
 	opErr = res.Error
@@ -167,7 +170,7 @@ func faultable(evs []recdrv.Event) []recdrv.Event {
 	var out []recdrv.Event
 	for _, e := range evs {
 		switch e.Kind {
-		case recdrv.KBegin, recdrv.KPrepare, recdrv.KExec, recdrv.KQuery, recdrv.KStmtExec, recdrv.KStmtQuery, recdrv.KCommit:
+		case recdrv.KBegin, recdrv.KPrepare, recdrv.KExec, recdrv.KQuery, recdrv.KStmtExec, recdrv.KStmtQuery, recdrv.KCommit, recdrv.KRowsNext:
 			out = append(out, e)
 		}
 	}
